@@ -38,19 +38,26 @@ D = decimal.Decimal
 CTX = decimal.Context(prec=50)
 
 
+RS_T = sorted(set(RS + [10.0 ** (k / 2.0) for k in range(-24, 17)] + [0.25, 0.75, 0.9, 0.99, 1.01, 1.1, 1.5, 2.5, 2.7, 2.75, 4.0, 7.0]))
+ANG_T = ANG + [math.pi, 3 * math.pi / 2, 0.7853981633974483, 5.5]
+NUS_T = [-1.0, -0.75, -0.5, -0.25, 0.0, 0.25, 0.5, 0.75, 1.0]
+MIND_T = [0.0, 1e-6, 1e-3, 0.5, 1.0, 10.0, 1e4]
+
+
 def bounds(tier, seed):
-    return dict(distances=[float(r) for r in RS], angles=ANG, mindist=MIND, poisson=NUS, frames=pick_frames(FRAMES, tier, seed),
+    return dict(distances=[float(r) for r in (RS if tier == "quick" else RS_T)], angles=(ANG if tier == "quick" else ANG_T),
+                mindist=(MIND if tier == "quick" else MIND_T), poisson=(NUS if tier == "quick" else NUS_T), frames=pick_frames(FRAMES, tier, seed),
                 trend_degrees=[0, 6])
 
 
 def cases(tier, seed):
     for fr in pick_frames(FRAMES, tier, seed):
-        for md in MIND:
+        for md in (MIND if tier == "quick" else MIND_T):
             for shape in ("1d", "2d", "0d"):
-                yield dict(kind="spline", frame=fr, mindist=md, shape=shape)
-            for nu in NUS:
+                yield dict(kind="spline", frame=fr, mindist=md, shape=shape, dense=(tier == "thorough"))
+            for nu in (NUS if tier == "quick" else NUS_T):
                 for shape in ("1d", "2d"):
-                    yield dict(kind="vector", frame=fr, mindist=md, nu=nu, shape=shape)
+                    yield dict(kind="vector", frame=fr, mindist=md, nu=nu, shape=shape, dense=(tier == "thorough"))
     for md in MIND:
         for nsq in (2, 3, 5):
             yield dict(kind="square", mindist=md, n=nsq)
@@ -95,12 +102,12 @@ def _g_exact(r):
     return CTX.multiply(CTX.multiply(r, r), CTX.subtract(CTX.ln(r), D(1)))
 
 
-def _points(frame):
+def _points(frame, dense=False):
     """observation points around the single force at `frame`, one per (r, angle)."""
     fx, fy = frame
     obs = []
-    for r in RS:
-        for a in ANG:
+    for r in (RS_T if dense else RS):
+        for a in (ANG_T if dense else ANG):
             if r == 0.0 and a != 0.0:
                 continue
             obs.append((fx + r * math.cos(a), fy + r * math.sin(a)))
@@ -122,7 +129,7 @@ def run(case, rec):
     if kind in ("spline", "vector"):
         fx, fy = case["frame"]
         md = case["mindist"]
-        obs = _points(case["frame"])
+        obs = _points(case["frame"], case.get("dense", False))
         forces = [(fx, fy), (fx + 1.0, fy - 2.0), (fx - 0.75, fy + 0.5)]
         oe = np.array([p[0] for p in obs]); on = np.array([p[1] for p in obs])
         fe = np.array([p[0] for p in forces]); fn = np.array([p[1] for p in forces])
